@@ -1,6 +1,7 @@
 package c27_atomic
 
 import (
+	"encoding/json"
 	"fmt"
 	"os"
 	"os/exec"
@@ -239,7 +240,15 @@ func runFsizeCase(c *Case, root string) (violation string, hit bool) {
 		hit = out == OutcomeError
 	}
 	mustFail := c.Inject.Kind == InjFsizeError && limited && differs(c) && out != OutcomeCrashed
-	return Judge(c, a.Dir, a.Target, out, mustFail), hit
+	if v := Judge(c, a.Dir, a.Target, out, mustFail); v != "" {
+		return v, hit
+	}
+	if out != OutcomeOK {
+		if v := followUpWrite(a, c); v != "" {
+			return fmt.Sprintf("%s after a partial write, then a second write without any fault: %s", out, v), hit
+		}
+	}
+	return "", hit
 }
 
 func TestFsizeLimit(t *testing.T) {
@@ -410,7 +419,49 @@ func runStraceInjection(a *Arena, c *Case, s stepRef, kill bool, errno string) (
 	}
 	// A failure injected into a step of the write must surface as an error.
 	mustFail := !kill && s.relevant
-	return Judge(c, a.Dir, a.Target, out, mustFail), true, nil
+	if v := Judge(c, a.Dir, a.Target, out, mustFail); v != "" {
+		return v, true, nil
+	}
+	// The history goes on: after a crashed or failed write, a later write
+	// (shorter content, no fault) must leave exactly its own content.
+	if out != OutcomeOK {
+		if v := followUpWrite(a, c); v != "" {
+			return fmt.Sprintf("%s, then a second write without any fault: %s", out, v), true, nil
+		}
+	}
+	return "", true, nil
+}
+
+// followUpWrite performs a second, uninjected write of shorter independent
+// content into the arena as the previous run left it and judges the result.
+func followUpWrite(a *Arena, c *Case) string {
+	c2 := &Case{Mode: c.Mode, Perm: c.Perm, NewSeed: c.NewSeed ^ 0x5bd1e995, NewLen: c.NewLen / 3}
+	_, payload, _ := c2.Contents()
+	newFile, result, specPath := filepath.Join(a.Root, "payload2"), filepath.Join(a.Root, "result2"), filepath.Join(a.Root, "spec2.json")
+	os.Remove(result)
+	if err := os.WriteFile(newFile, payload, 0o600); err != nil {
+		return ""
+	}
+	raw, _ := json.Marshal(ChildSpec{Mode: c2.Mode, Target: a.Target, NewFile: newFile, Perm: c2.Perm, ResultPath: result, FsizeLimit: -1})
+	if err := os.WriteFile(specPath, raw, 0o600); err != nil {
+		return ""
+	}
+	if err := runChild(specPath); err != nil {
+		return ""
+	}
+	out := OutcomeCrashed
+	if rawResult, err := os.ReadFile(result); err == nil {
+		out = OutcomeError
+		if strings.TrimSpace(string(rawResult)) == "OK" {
+			out = OutcomeOK
+		}
+	}
+	if out != OutcomeOK {
+		// A later write may fail for reasons of its own; only a write that
+		// reports success is judged.
+		return ""
+	}
+	return Judge(c2, a.Dir, a.Target, OutcomeOK, false)
 }
 
 func TestStraceSteps(t *testing.T) {
@@ -422,7 +473,7 @@ func TestStraceSteps(t *testing.T) {
 		t.Skip("strace not available")
 	}
 	rec := ev.New(t, prop, "strace-crash-and-fault-steps",
-		"rapid: random old/new contents and mode; an uninjected strace run of the child finds every system call that touches the target directory (by path or by descriptor); then, for EVERY such call and for the first call after them, the child is SIGKILLed on entering it, and every such call is made to fail with errno values fit for it (one per step in the quick tier, all in the thorough tier); a run counts only if its strace log shows that the injection hit the intended call. Non-trivial: the hit call lies after the creation of the temporary file and not after the rename, and new differs from old")
+		"rapid: random old/new contents and mode; an uninjected strace run of the child finds every system call that touches the target directory (by path or by descriptor); then, for EVERY such call and for the first call after them, the child is SIGKILLed on entering it, and every such call is made to fail with errno values fit for it (one per step in the quick tier, all in the thorough tier); a run counts only if its strace log shows that the injection hit the intended call; after every crashed or failed run a second, uninjected write of shorter independent content is made into the directory as it was left and must leave exactly its own content. Non-trivial: the hit call lies after the creation of the temporary file and not after the rename, and new differs from old")
 	base := t.TempDir()
 	ev.Check(t, rec, 6, 30, func(rt *rapid.T) {
 		c := drawCase(rt, 1<<20)
